@@ -28,7 +28,7 @@ FAMILY = [
     {'n_spikes': 3, 'times': [0, 1, 1], 'templates': [0, 2, 2],
      'tsv': {'cluster_KSLabel.tsv': TSV_ALL['cluster_KSLabel.tsv']}},
     {'n_spikes': 3, 'times': [1, 1, 2], 'templates': [2, 0, 2], 'clusters': [5, 0, 5],
-     'tsv': {'cluster_Amplitude.tsv': {'field': 'Amplitude', 'values': {0: 1.5, 5: 7.0}}}},
+     'tsv': {'cluster_Amplitude.tsv': {'field': 'Amplitude', 'values': {0: 0.123456789, 5: 2.5e-05}}}},
     {'n_spikes': 3, 'times': [0, 0, 0], 'templates': [0, 0, 2]},
     {'n_spikes': 2, 'times': [2, 2], 'templates': [0, 2], 'clusters': [0, 3]},
     {'n_spikes': 3, 'times': [0, 2, 2], 'templates': [2, 2, 0], 'tsv': TSV_ALL},
